@@ -137,7 +137,14 @@ def matrix(roles, u, coll_sites, adaptor_bi, pred_sites=()):
                 within = restrict.get(pb.key, set())
                 if ps.bi not in within:
                     continue
-                seen, st = set(), [0]
+                start = 0
+                if pb.key == root.key:
+                    # loop-form per-element code: one iteration starts at the loop's next()
+                    ad = adaptor_of(u, ps)
+                    if ad is None:
+                        continue
+                    start = ad[0]
+                seen, st = set(), [start]
                 while st:
                     n = st.pop()
                     if n in seen or n not in within:
@@ -145,7 +152,7 @@ def matrix(roles, u, coll_sites, adaptor_bi, pred_sites=()):
                     seen.add(n)
                     t = pb.blocks[n]["term"]
                     c = callee_of(t) if t["k"] == "Call" else None
-                    if c is not None and c.get("key") in roles.sinks:
+                    if c is not None and c.get("key") in roles.sinks and n != start:
                         continue
                     st.extend(pb.succs(n))
                 raw_elems[(o, v)] = raw_elems.get((o, v), False) or (ps.bi in seen)
